@@ -150,6 +150,10 @@ def cases(shard, nshards, seed, tier):
         for k, ops in enumerate(([], [], [{"op": "thin-res", "seed": f"{seed}:c16", "frac": 0.12}], [{"op": "thin-res", "seed": f"{seed}:c16b", "frac": 0.2}], [{"op": "reverse-res"}], [{"op": "split-chain", "tail": 3}])):
             if mine():
                 yield {"family": "from-3d", "file": fn, "ops": ops, "gaps": k != 0}
+        # the same through the external-tool adapter (an FR3D listing of the structure's own pairs)
+        for gaps in (False, True):
+            if mine():
+                yield {"family": "from-3d", "file": fn, "ops": [], "gaps": gaps, "route": "adapter"}
     nrand = 1200 if tier == "quick" else 20000
     cap = 6 if tier == "quick" else 8
     for i in range(nrand):
@@ -186,17 +190,43 @@ def _from_3d(case, rec):
     s = gen3d.load(case["file"])
     if case["ops"]:
         s = gen3d.apply_ops(s, case["ops"])
-    det = lambda extra=None: {"file": case["file"], "ops": case["ops"], "gaps": case["gaps"], "info": extra}
+    det = lambda extra=None: {"file": case["file"], "ops": case["ops"], "gaps": case["gaps"], "route": case.get("route", "Mapping2D3D"), "info": extra}
     try:
         bi = annotator.extract_base_interactions(s)
-        m = tertiary.Mapping2D3D(s, bi.basePairs, bi.stackings, case["gaps"])
-        b = m.bpseq
+        if case.get("route") == "adapter":
+            import os
+            import tempfile
+
+            from rnapolis import adapter
+
+            def unit(r):
+                a = r.auth
+                return "|".join(["XXXX", "1", a.chain, a.name, str(a.number)] + (["", "", a.icode] if a.icode else []))
+
+            if any(p.nt1.auth is None or p.nt2.auth is None for p in bi.basePairs):
+                rec.skip("mapping.list-is-the-bpseq-list", "label-only residues have no FR3D unit id")
+                return
+            fd, path = tempfile.mkstemp(suffix=".txt", prefix="vmon-c16-")
+            with os.fdopen(fd, "w") as fh:
+                for p in bi.basePairs:
+                    fh.write(f"{unit(p.nt1)}\t{p.lw.value}\t{unit(p.nt2)}\t0\n")
+            try:
+                s2d, dbs, m = adapter.process_external_tool_output(s, path, adapter.ExternalTool.FR3D, None, case["gaps"], True)
+            finally:
+                os.remove(path)
+            b = m.bpseq
+            texts = list(dbs)
+        else:
+            m = tertiary.Mapping2D3D(s, bi.basePairs, bi.stackings, case["gaps"])
+            b = m.bpseq
+            texts = None
         f = mon2d.facts(mon2d.snapshot(b))
         if f is None or max((len(c) for c in o2d.components(f["g"])), default=0) > 8:
             rec.skip("mapping.list-is-the-bpseq-list", "bpseq outside the domain / group > 8 stems")
             return
         rec.mark_nontrivial(f["knotted"])
-        texts = list(m.all_dot_brackets)
+        if texts is None:
+            texts = list(m.all_dot_brackets)
         own = [d.structure for d in b.all_dot_brackets]
     except Exception as e:
         rec.violation("mapping.no-crash", det(repr(e)[:300]), mechanism=f"crash:{type(e).__name__}")
